@@ -11,6 +11,7 @@ import (
 	"bufio"
 	"crypto"
 	"encoding/json"
+	"fmt"
 	"math/rand"
 	"os"
 	"path/filepath"
@@ -30,6 +31,13 @@ import (
 	"github.com/nuts-foundation/nuts-node/vdr/resolver"
 	"go.uber.org/mock/gomock"
 )
+
+func btoi(b bool) int {
+	if b {
+		return 1
+	}
+	return 0
+}
 
 type vVcOp struct {
 	Op     string                 `json:"op"`
@@ -202,6 +210,35 @@ func TestVerifC17VcJwt(t *testing.T) {
 					ops.WriteByte('\n')
 					impl.WriteString(res + "\n")
 					n++
+					if phase == "" { // crypto.ExtractProtectedHeaders (what the key resolver gets as metadata) on the same token
+						for _, tok := range []string{v.Tok, ""}[:1+btoi(strings.HasSuffix(v.Name, "-valid"))] {
+							xres := "panic"
+							func() {
+								defer func() { _ = recover() }()
+								h, err := ExtractProtectedHeaders(tok)
+								if err != nil {
+									xres = "err"
+									return
+								}
+								str := func(x interface{}) string {
+									if x == nil {
+										return ""
+									}
+									return fmt.Sprintf("%v", x)
+								}
+								xres = "headers:" + str(h["alg"]) + "," + str(h["kid"])
+							}()
+							xi := info
+							if tok == "" {
+								xi, _ = tokenV2.VAnalyse(tok)
+							}
+							xb, _ := json.Marshal(map[string]interface{}{"op": "xph", "name": v.Name, "info": xi, "tokempty": tok == "", "class": v.Class})
+							ops.Write(xb)
+							ops.WriteByte('\n')
+							impl.WriteString(xres + "\n")
+							n++
+						}
+					}
 				}
 			}
 		}
